@@ -15,7 +15,12 @@ from fractions import Fraction
 import numpy as np
 
 
+DATA_DIR = None   # set per task: a private copy of the repo's test data under /verif/work (nothing is written into the repo)
+
+
 def data_path(name):
+    if DATA_DIR:
+        return os.path.join(DATA_DIR, name)
     import mchap
 
     return os.path.join(os.path.dirname(mchap.__file__), "tests", "test_io", "data", name)
@@ -81,6 +86,8 @@ def write_masked_input(path_out):
 
 
 def run(task):
+    global DATA_DIR
+    DATA_DIR = task.get("data_dir")
     rnd = random.Random(task["seed"])
     idx = task["index"]
     which = ("assemble", "call", "call-pedigree")[idx % 3]
